@@ -587,6 +587,10 @@ mod verif_nx_pipeline {
             "A := (B);", "A := ( B );", "P ^ := 1;", "A := B [ 1 , 2 ];", "A := function (X : Integer) : Integer begin Result := X; end;",
             "A . B . C (1) . D;", "exit (1);", "A := nil;", "A := 'x' .Length;", "A := 12 .ToString;", "if A then begin B; end else begin C; end;",
             "A := B < C;", "A := B <= C;", "A := B <> C;", "A := B in [C];", "A := B is C;", "A := ^ B;", "A := B ( C ) ( D );", "A := &begin + 1;",
+            // asm blocks: the instruction lines are excluded by the property, so the gaps inside the body are kept (\u{1} = a blank that is
+            // not re-laid); the gaps around the block and after its `end` are ordinary gaps
+            "asm\u{1}mov\u{1}eax,\u{1}1;\u{1}mov\u{1}edx,\u{1}2;\u{1}end ; A := 1;", "asm\u{1}end ; A := 1;", "asm\u{1}mov\u{1}eax,\u{1}1\u{1}end ; A := 1;",
+            "if A then asm\u{1}nop\u{1}end else B;", "asm\u{1}mov\u{1}eax,\u{1}1;\u{1}end ;",
         ];
         let decls = [
             "label L2;", "const K : Integer = 1;", "var V : array [0 .. 1] of Byte;", "type T = class (TObject) private F : Integer; public procedure P; end;",
@@ -610,7 +614,6 @@ mod verif_nx_pipeline {
             let words: Vec<&str> = t.split(' ').collect();
             let gaps = words.len() - 1;
             for cfg in cfgs {
-                let (reference, _) = fmt(cfg, t, Vec::new());
                 let mut variants: Vec<String> = Vec::new();
                 for f in fills {
                     variants.push(words.join(f));                                            // every gap
@@ -629,7 +632,9 @@ mod verif_nx_pipeline {
                     if i < gaps { alt.push_str(fills[i % fills.len()]); }
                 }
                 variants.push(alt);
+                let reference = { let (r, _) = fmt(cfg, &t.replace('\u{1}', " "), Vec::new()); r };
                 for v in &variants {
+                    let v = &v.replace('\u{1}', " ");
                     let (out, _) = fmt(cfg, v, Vec::new());
                     assert!(out == reference, "OB pipeline/relayout_same_output: changing the amount of horizontal whitespace, the indentation, or a space into a single line break between two non-comment tokens does not change the output\n canonical={:?}\n relaid={:?}\n output of canonical={:?}\n output of relaid={:?}", t, v, reference, out);
                     n += 1;
